@@ -129,7 +129,7 @@ def _worker(args):
                         r.one(cls, qn, entry, data, tag)
                 for gen in (bytefam.i2_substitutions(seed, thorough), bytefam.i3_del_ins(seed, thorough),
                             bytefam.i4_pairs(seed, thorough), bytefam.i9_stretch(seed, thorough),
-                            bytefam.i10_json(seed)):
+                            bytefam.i10_json(seed), bytefam.i11_names(seed)):
                     for tag, data in gen:
                         r.one(cls, qn, 'immutable', data, tag)
                         r.one(cls, qn, 'mutable', data, tag)
@@ -255,7 +255,7 @@ def run(ctx):
     ]
     _check_no_override(ctx)
     fam = ('I1 all truncations; I2 every single-byte substitution (B9 quick / all 256 thorough); I3 every '
-           'single deletion and B5 insertion; I4 all B5 pairs at positions <8 (quick) / <24; I9 one byte raised to 3f/40/7f/ff with 300 filler octets appended; I10 JSON member values replaced by 14 alternatives (NaN, 1e400, wrong types) / removed; I5 all strings of '
+           'single deletion and B5 insertion; I4 all B5 pairs at positions <8 (quick) / <24; I9 one byte raised to 3f/40/7f/ff with 300 filler octets appended; I10 JSON member values replaced by 14 alternatives (NaN, 1e400, wrong types) / removed; I11 every uint32-prefixed SSH algorithm / curve name replaced by every other member of its enumeration; I5 all strings of '
            'length <=1 and (thorough) 2 over 256 values, 2-4 over a reduced alphabet; I6 token sequences for text '
            'classes; cross-class seeds of the same family; I7 splices (thorough); extra parse functions. '
            'state = distinct (class, seed) and distinct (class, outcome)')
